@@ -77,12 +77,18 @@ func (e hkEntry) String() string { return fmt.Sprintf("%s/%s[%s,%s]", e.Cat, e.K
 
 type hkCase struct {
 	Entries []hkEntry `json:"entries"`
+	// Sidecar: the process runs with MUTAGEN_SIDECAR=1 (pkg/sidecar), where
+	// Housekeep is documented to skip agent housekeeping only.
+	Sidecar bool `json:"sidecar,omitempty"`
 }
 
 func (c hkCase) key() string {
 	s := make([]string, len(c.Entries))
 	for i, e := range c.Entries {
 		s[i] = e.String()
+	}
+	if c.Sidecar {
+		return "sidecar=1 " + strings.Join(s, " ")
 	}
 	return strings.Join(s, " ")
 }
@@ -393,6 +399,15 @@ func hkVariants(cat string, ages []hkAge) []hkEntry {
 // Housekeep and judges the result. It returns the violations as (key, what)
 // pairs, whether the population is non-trivial, and the per-entry outcome classes.
 func runHKCase(t *testing.T, scratch string, c hkCase) (viol [][2]string, nontrivial bool, classes []string) {
+	// The sidecar check is cached per process (sync.Once in pkg/sidecar), so a case
+	// can only run in a process started with the matching environment.
+	if (os.Getenv("MUTAGEN_SIDECAR") == "1") != c.Sidecar {
+		t.Fatalf("INFRA: case sidecar=%v run in a process with MUTAGEN_SIDECAR=%q", c.Sidecar, os.Getenv("MUTAGEN_SIDECAR"))
+	}
+	vprefix := ""
+	if c.Sidecar {
+		vprefix = "sidecar=1 "
+	}
 	root, err := os.MkdirTemp(scratch, "pop")
 	if err != nil {
 		t.Fatalf("INFRA: %v", err)
@@ -462,12 +477,19 @@ func runHKCase(t *testing.T, scratch string, c hkCase) (viol [][2]string, nontri
 
 	// "never touches anything outside Mutagen's data directory"
 	if d := hkDiff(outsideBefore, outsideAfter); d != "" {
-		viol = append(viol, [2]string{"outside-touched", "objects outside the data directory changed: " + d})
+		viol = append(viol, [2]string{vprefix + "outside-touched", "objects outside the data directory changed: " + d})
 	}
 	anyRemoved, anyKept := false, false
 	for i, e := range c.Entries {
 		rel := filepath.Join(e.Cat, names[i])
 		want := hkExpect(e)
+		if c.Sidecar && e.Cat == "agents" && want == "removed" {
+			// Documented exemption: in a sidecar container agent housekeeping is
+			// skipped (access times are unreliable there). The statement itself
+			// demands the removal, the code documents the exemption: accept either.
+			// Caches and staging are judged exactly as outside a sidecar.
+			want = "either"
+		}
 		_, lerr := os.Lstat(filepath.Join(w.data, rel))
 		gone := os.IsNotExist(lerr)
 		// the part of the data snapshot that belongs to this entry
@@ -488,21 +510,26 @@ func runHKCase(t *testing.T, scratch string, c hkCase) (viol [][2]string, nontri
 		case !intact:
 			got = "partially-removed"
 		}
-		classes = append(classes, fmt.Sprintf("%s/%s:%s:%s", e.Cat, e.Kind, want, got))
+		if c.Sidecar {
+			// coarse classes in sidecar mode (the per-kind split is in the other half)
+			classes = append(classes, fmt.Sprintf("%s%s:%s:%s", vprefix, e.Cat, want, got))
+		} else {
+			classes = append(classes, fmt.Sprintf("%s/%s:%s:%s", e.Cat, strings.TrimSuffix(e.Kind, "@in"), want, got))
+		}
 		switch want {
 		case "removed":
 			anyRemoved = true
 			if got != "removed" {
-				viol = append(viol, [2]string{e.String(), fmt.Sprintf("stale entry %v was not removed (%s): %s", e, got, hkDiff(sub(dataBefore), sub(dataAfter)))})
+				viol = append(viol, [2]string{vprefix + e.String(), fmt.Sprintf("stale entry %v was not removed (%s): %s", e, got, hkDiff(sub(dataBefore), sub(dataAfter)))})
 			}
 		case "kept":
 			anyKept = true
 			if got != "kept" {
-				viol = append(viol, [2]string{e.String(), fmt.Sprintf("entry %v is not stale but was %s: %s", e, got, hkDiff(sub(dataBefore), sub(dataAfter)))})
+				viol = append(viol, [2]string{vprefix + e.String(), fmt.Sprintf("entry %v is not stale but was %s: %s", e, got, hkDiff(sub(dataBefore), sub(dataAfter)))})
 			}
 		case "either":
 			if got == "partially-removed" {
-				viol = append(viol, [2]string{e.String(), fmt.Sprintf("entry %v was partially removed: %s", e, hkDiff(sub(dataBefore), sub(dataAfter)))})
+				viol = append(viol, [2]string{vprefix + e.String(), fmt.Sprintf("entry %v was partially removed: %s", e, hkDiff(sub(dataBefore), sub(dataAfter)))})
 			}
 		}
 	}
@@ -526,7 +553,7 @@ func runHKCase(t *testing.T, scratch string, c hkCase) (viol [][2]string, nontri
 		return m
 	}
 	if d := hkDiff(rest(dataBefore), rest(dataAfter)); d != "" {
-		viol = append(viol, [2]string{"bystander-touched", "objects in the data directory that are no agent/cache/staging entry changed: " + d})
+		viol = append(viol, [2]string{vprefix + "bystander-touched", "objects in the data directory that are no agent/cache/staging entry changed: " + d})
 	}
 	return viol, anyRemoved && anyKept, classes
 }
@@ -546,7 +573,7 @@ func hkPopulations(thorough bool) (pops []hkCase, nva, nvc, nvs int, ageNames []
 		for _, a := range va {
 			for _, c := range vc {
 				for _, s := range vs {
-					pops = append(pops, hkCase{[]hkEntry{a, c, s}})
+					pops = append(pops, hkCase{Entries: []hkEntry{a, c, s}})
 				}
 			}
 		}
@@ -556,7 +583,7 @@ func hkPopulations(thorough bool) (pops []hkCase, nva, nvc, nvs int, ageNames []
 		for _, xy := range [][2][]hkEntry{{va, vc}, {va, vs}, {vc, vs}} {
 			for _, x := range xy[0] {
 				for _, y := range xy[1] {
-					pops = append(pops, hkCase{[]hkEntry{x, y}})
+					pops = append(pops, hkCase{Entries: []hkEntry{x, y}})
 				}
 			}
 		}
@@ -564,7 +591,7 @@ func hkPopulations(thorough bool) (pops []hkCase, nva, nvc, nvs int, ageNames []
 	// every variant alone in an otherwise empty data directory
 	for _, variants := range [][]hkEntry{va, vc, vs} {
 		for _, x := range variants {
-			pops = append(pops, hkCase{[]hkEntry{x}})
+			pops = append(pops, hkCase{Entries: []hkEntry{x}})
 		}
 	}
 	bg := map[string][]hkEntry{
@@ -575,7 +602,7 @@ func hkPopulations(thorough bool) (pops []hkCase, nva, nvc, nvs int, ageNames []
 	for _, variants := range [][]hkEntry{va, vc, vs} {
 		for xi, x := range variants {
 			for _, y := range variants[xi:] {
-				p := hkCase{[]hkEntry{x, y}}
+				p := hkCase{Entries: []hkEntry{x, y}}
 				for _, other := range []string{"agents", "caches", "staging"} {
 					if other != x.Cat {
 						p.Entries = append(p.Entries, bg[other]...)
@@ -619,15 +646,26 @@ func TestC43Worker(t *testing.T) {
 	if spec == "" {
 		t.Skip("worker body; started by TestC43 only")
 	}
-	var shard, of int
+	scratch := t.TempDir()
+	enc := json.NewEncoder(os.Stdout)
+	if spec == "single" {
+		// one case, given in VERIF_C43_CASE (replay / re-run of a violation)
+		var c hkCase
+		if err := json.Unmarshal([]byte(os.Getenv("VERIF_C43_CASE")), &c); err != nil {
+			t.Fatalf("INFRA: bad VERIF_C43_CASE: %v", err)
+		}
+		viol, nt, classes := runHKCase(t, scratch, c)
+		fmt.Print("HK ")
+		enc.Encode(hkResult{0, nt, classes, viol})
+		fmt.Println("HKDONE")
+		return
+	}
+	var shard, of, sidecarFlag int
 	var deadlineUnix int64
-	if _, err := fmt.Sscanf(spec, "%d/%d/%d", &shard, &of, &deadlineUnix); err != nil {
+	if _, err := fmt.Sscanf(spec, "%d/%d/%d/%d", &shard, &of, &deadlineUnix, &sidecarFlag); err != nil {
 		t.Fatalf("INFRA: bad worker spec %q", spec)
 	}
-	os.Setenv("MUTAGEN_SIDECAR", "")
-	scratch := t.TempDir()
 	pops, _, _, _, _ := hkPopulations(vr.Thorough())
-	enc := json.NewEncoder(os.Stdout)
 	for i, c := range pops {
 		if i%of != shard {
 			continue
@@ -635,11 +673,43 @@ func TestC43Worker(t *testing.T) {
 		if time.Now().Unix() > deadlineUnix {
 			break
 		}
+		c.Sidecar = sidecarFlag == 1
 		viol, nt, classes := runHKCase(t, scratch, c)
 		fmt.Print("HK ")
 		enc.Encode(hkResult{i, nt, classes, viol})
 	}
 	fmt.Println("HKDONE")
+}
+
+// hkSidecarEnv is the environment setting that puts a process in / out of
+// sidecar mode (pkg/sidecar: MUTAGEN_SIDECAR == "1").
+func hkSidecarEnv(sidecar bool) string {
+	if sidecar {
+		return "MUTAGEN_SIDECAR=1"
+	}
+	return "MUTAGEN_SIDECAR="
+}
+
+// hkRunInChild runs one case in a fresh worker process with the matching
+// sidecar environment (replay and re-runs of violations).
+func hkRunInChild(t *testing.T, c hkCase) (viol [][2]string, nontrivial bool, classes []string) {
+	cmd := exec.Command(os.Args[0], "-test.run=^TestC43Worker$", "-test.v")
+	cmd.Env = append(os.Environ(), "VERIF_C43_WORKER=single", "VERIF_C43_CASE="+vr.J(c), "VERIF_REPLAY=", hkSidecarEnv(c.Sidecar))
+	out, err := cmd.CombinedOutput()
+	if err != nil || !strings.Contains(string(out), "HKDONE") {
+		t.Fatalf("INFRA: C43 single-case worker failed: %v\n%s", err, vr.Short(string(out), 4000))
+	}
+	for _, line := range strings.Split(string(out), "\n") {
+		if strings.HasPrefix(line, "HK ") {
+			var res hkResult
+			if err := json.Unmarshal([]byte(line[3:]), &res); err != nil {
+				t.Fatalf("INFRA: C43 single-case worker wrote %q: %v", line, err)
+			}
+			return res.Viol, res.Nontrivial, res.Classes
+		}
+	}
+	t.Fatalf("INFRA: C43 single-case worker wrote no result")
+	return nil, false, nil
 }
 
 func TestC43(t *testing.T) {
@@ -650,13 +720,12 @@ func TestC43(t *testing.T) {
 	}
 	t.Setenv("MUTAGEN_SIDECAR", "")
 	t.Setenv("MUTAGEN_DATA_DIRECTORY", "/nonexistent-verif-placeholder")
-	scratch := t.TempDir()
 	if raw := vr.ReplayCase(); raw != nil {
 		var c hkCase
 		if err := json.Unmarshal(raw, &c); err != nil {
 			t.Fatalf("INFRA: bad replay case: %v", err)
 		}
-		viol, nt, classes := runHKCase(t, scratch, c)
+		viol, nt, classes := hkRunInChild(t, c)
 		t.Logf("replay %s: nontrivial %v classes %v violations %v", c.key(), nt, classes, viol)
 		r.Case(c.key(), true)
 		for _, v := range viol {
@@ -664,11 +733,12 @@ func TestC43(t *testing.T) {
 		}
 		return
 	}
-	pops, nva, nvc, nvs, ageNames := hkPopulations(vr.Thorough())
-	r.Rule(fmt.Sprintf("populations of a temporary MUTAGEN_DATA_DIRECTORY run through the real housekeeping.Housekeep: (1) every variant alone (thorough: also every pair of entries from two different categories and every triple, one entry per category) from %d agents x %d caches x %d staging entry variants; (2) every unordered pair (incl. twice the same) of variants within one category next to a fixed stale+fresh background in the other two; (3) all variants at once. Variants: plain entries with the decisive timestamp (agent binary atime; cache / staging-root mtime) at ages %v relative to the category threshold and every other timestamp fresh or ancient; entries that are symlinks to files/directories OUTSIDE the data directory and to relocated targets INSIDE it (target's decisive timestamp just below / just above the threshold x the link's OWN timestamps, set with utimensat(AT_SYMLINK_NOFOLLOW), fresh / ancient; the target's age decides); an agent binary that is a symlink to an outside file; staging roots containing a symlink to an outside directory; version directories without a binary; wrong-type entries; fixed ancient bystanders in sessions/archives/daemon/forwarding and outside. Non-trivial = the oracle demands at least one removal and at least one survival in the population; distinct by population.", nva, nvc, nvs, ageNames))
+	basePops, nva, nvc, nvs, ageNames := hkPopulations(vr.Thorough())
+	r.Rule(fmt.Sprintf("populations of a temporary MUTAGEN_DATA_DIRECTORY run through the real top-level housekeeping.Housekeep, each once in a process without and once in a process with the sidecar environment (MUTAGEN_SIDECAR=1; there stale agents may stay, everything else is judged identically): (1) every variant alone (thorough: also every pair of entries from two different categories and every triple, one entry per category) from %d agents x %d caches x %d staging entry variants; (2) every unordered pair (incl. twice the same) of variants within one category next to a fixed stale+fresh background in the other two; (3) all variants at once. Variants: plain entries with the decisive timestamp (agent binary atime; cache / staging-root mtime) at ages %v relative to the category threshold and every other timestamp fresh or ancient; entries that are symlinks to files/directories OUTSIDE the data directory and to relocated targets INSIDE it (target's decisive timestamp just below / just above the threshold x the link's OWN timestamps, set with utimensat(AT_SYMLINK_NOFOLLOW), fresh / ancient; the target's age decides); an agent binary that is a symlink to an outside file; staging roots containing a symlink to an outside directory; version directories without a binary; wrong-type entries; fixed ancient bystanders in sessions/archives/daemon/forwarding and outside. Non-trivial = the oracle demands at least one removal and at least one survival in the population; distinct by population.", nva, nvc, nvs, ageNames))
 	r.Assume("ages are measured against the real clock with a margin of at least 10 minutes (1 hour in quick) around the thresholds; the run of one population takes milliseconds",
 		"where the statement does not decide (stale staging root with fresh content, wrong-type entries, version directories without a binary) either outcome is accepted for the entry itself, but the outside world and all other entries are still judged strictly",
-		"not in a sidecar container (MUTAGEN_SIDECAR unset), POSIX, linux utimensat; access times are set explicitly and never disturbed before the run (no reads between setting and Housekeep)",
+		"sidecar mode is per process (cached by pkg/sidecar), so both modes run in separate worker processes; in sidecar mode the documented exemption (agents not housekept) is accepted for stale agents, nothing else changes",
+		"POSIX, linux utimensat; access times are set explicitly and never disturbed before the run (no reads between setting and Housekeep)",
 		"filesystem faults during housekeeping (failed removals) are not injected")
 
 	deadline := vr.Deadline(45*time.Second, 8*time.Minute)
@@ -676,6 +746,18 @@ func TestC43(t *testing.T) {
 	if workers > 8 {
 		workers = 8
 	}
+	// pops[2*i] = base population i outside a sidecar, pops[2*i+1] = the same in one
+	pops := make([]hkCase, 0, 2*len(basePops))
+	for _, c := range basePops {
+		pops = append(pops, c)
+		c.Sidecar = true
+		pops = append(pops, c)
+	}
+	per := workers / 2 // worker processes per mode
+	if per < 1 {
+		per = 1
+	}
+	workers = 2 * per
 	results := make([]*hkResult, len(pops))
 	outputs := make([][]byte, workers)
 	errs := make([]error, workers)
@@ -684,8 +766,9 @@ func TestC43(t *testing.T) {
 		wg.Add(1)
 		go func(wi int) {
 			defer wg.Done()
+			sidecar := wi / per // 0: normal, 1: sidecar
 			cmd := exec.Command(os.Args[0], "-test.run=^TestC43Worker$", "-test.v")
-			cmd.Env = append(os.Environ(), fmt.Sprintf("VERIF_C43_WORKER=%d/%d/%d", wi, workers, deadline.Unix()), "VERIF_REPLAY=")
+			cmd.Env = append(os.Environ(), fmt.Sprintf("VERIF_C43_WORKER=%d/%d/%d/%d", wi%per, per, deadline.Unix(), sidecar), "VERIF_REPLAY=", hkSidecarEnv(sidecar == 1))
 			// Workers with an even index build their populations on the default
 			// temporary filesystem, odd ones on tmpfs when there is one (much faster
 			// under load; housekeeping itself is filesystem-agnostic).
@@ -709,7 +792,7 @@ func TestC43(t *testing.T) {
 			if err := json.Unmarshal([]byte(line[3:]), &res); err != nil {
 				t.Fatalf("INFRA: C43 worker %d wrote %q: %v", wi, line, err)
 			}
-			results[res.Index] = &res
+			results[2*res.Index+wi/per] = &res
 		}
 	}
 	done := 0
@@ -726,9 +809,9 @@ func TestC43(t *testing.T) {
 		for _, v := range res.Viol {
 			c := c
 			v := v
-			// re-run in this process (sequentially; the override is process-global)
+			// re-run in a fresh process with the matching sidecar environment
 			r.Violate(v[0], v[1], c, func() bool {
-				vv, _, _ := runHKCase(t, scratch, c)
+				vv, _, _ := hkRunInChild(t, c)
 				for _, x := range vv {
 					if x[0] == v[0] {
 						return true
